@@ -486,7 +486,69 @@ def mapping_item(item):
     return out
 
 
+# ----------------------------------------------------------------------------- multifurcating input files (names through the refinement)
+def poly_fails(desc, algo, costs):
+    """File-level run of an extended solver on an input with polytomies and partially named ancestors (the root included)."""
+    case = H.Case(desc)
+    fails = []
+    given = {}
+    for T, names, which in ((case.O, desc.get("onames", {}), "object"), (case.S, desc.get("snames", {}), "species")):
+        for i in T.internals:
+            if names.get(str(i)):
+                given[(which, T.leafset(i))] = names[str(i)]
+    for policy in ("any", "all"):
+        try:
+            st, err, lines, raw = run_cli(desc, algo, policy, costs)
+        except Exception as e:
+            return [f"{policy}: exception {type(e).__name__}: {e}"]
+        if st not in (None, 0) or not lines:
+            fails.append(f"{policy}: exit status {st}, {len(lines)} line(s)")
+            continue
+        m = re.search(r"Minimum cost: (\S+)", err)
+        for line in lines:
+            try:
+                obj = json.loads(line)
+                back = SuperReconciliationOutput.from_dict(obj)
+            except Exception as e:
+                fails.append(f"{policy}: a written line does not parse back ({type(e).__name__}: {e})")
+                break
+            if m and str(back.cost()) != m.group(1):
+                fails.append(f"{policy}: parsed-back cost {back.cost()} != printed minimum {m.group(1)}")
+            for which, tree, letter in (("object", back.input.object_tree, "O"), ("species", back.input.species_lca.tree, "S")):
+                names = [n.name for n in tree.traverse("preorder")]
+                if len(set(names)) != len(names) or not all(names):
+                    fails.append(f"{policy}: {which} tree names {names} are not distinct and non-empty")
+                for n in tree.traverse():
+                    if n.is_leaf():
+                        continue
+                    clade = frozenset(l.name for l in n.iter_leaves())
+                    want = given.get((which, clade))
+                    if want is not None and n.name != want:
+                        fails.append(f"{policy}: the {which} ancestor the user named {want!r} is called {n.name!r} in the output")
+                    elif want is None and not re.fullmatch(letter + r"[0-9]+", n.name) and n.name not in given.values():
+                        fails.append(f"{policy}: generated {which} name {n.name!r} is not {letter}#")
+            if fails:
+                break
+    return fails
+
+
+def poly_item(item):
+    out = dict(paths=1, obligations=8, discharged=0, violations=[], solver_queries=0, solver_s=0.0, nontrivial=True,
+               item={"desc": item["desc"], "algo": item["algo"]}, section=item["section"])
+    costs = {"spe": 0, "dup": 1, "hgt": 1, "floss": 1, "sloss": 1}
+    f = poly_fails(item["desc"], item["algo"], costs)
+    if f:
+        out["violations"].append({"kind": "poly-names", "text": f"{item['algo']}: {f[:3]}; input file {input_json(item['desc'])}",
+                                  "signature": {"kind": "poly-names", "algo": item["algo"], "what": re.sub(r"[0-9]+", "#", f[0])[:60]},
+                                  "data": {"what": "poly", "desc": item["desc"], "algo": item["algo"]}, "confirmed": True})
+    else:
+        out["discharged"] = 8
+    return out
+
+
 def worker(item):
+    if item["kind"] == "poly":
+        return poly_item(item)
     if item["kind"] == "xhair":
         return xhair_item(item)
     if item["kind"] == "front":
@@ -497,6 +559,11 @@ def worker(item):
 def replay(data):
     if data["what"] == "cli":
         ff = file_level_fails(data["desc"], data["algo"], H.cost_unjson(data["costs"]))
+        for t in ff[:5]:
+            print("  reproduced:", t)
+        return bool(ff)
+    if data["what"] == "poly":
+        ff = poly_fails(data["desc"], data["algo"], {"spe": 0, "dup": 1, "hgt": 1, "floss": 1, "sloss": 1})
         for t in ff[:5]:
             print("  reproduced:", t)
         return bool(ff)
@@ -532,7 +599,8 @@ def main(argv=None):
     q = tier == "quick"
     rep = R.Report(PROP, tier, seed)
     items = [{"kind": "xhair", "timeout": 120 if q else 900, "section": 0}]
-    fixed_list = [{"spe": 0, "dup": 1, "hgt": 1, "floss": 1, "sloss": 1}, {"spe": 1, "dup": 2, "hgt": "inf", "floss": 1, "sloss": 0}]
+    fixed_list = [{"spe": 0, "dup": 1, "hgt": 1, "floss": 1, "sloss": 1}, {"spe": 1, "dup": 2, "hgt": "inf", "floss": 1, "sloss": 0},
+                  {"spe": 3, "dup": 2500000, "hgt": 1000003, "floss": 1, "sloss": 7}]      # a large penalty cost: the printed minimum has many digits
     algos = ["lca", "thl", "exh", "base_spfs", "ext_spfs", "base_uspfs", "superdtl"]
     nin = 40 if q else 400
     for k in range(nin):
@@ -560,6 +628,16 @@ def main(argv=None):
         base["leafsyn"][ls[0]], base["leafsyn"][ls[1]] = ["a", "b", "c"][: 2 + k % 2], ["b", "a"]
         items.append({"kind": "front", "desc": random_named(rng, RC.documented_names(base)), "algo": algo, "sym": SR.DHS, "fixed": {"spe": 0, "floss": 1},
                       "concrete": fixed_list, "nwit": 2, "max_paths": 4000, "budget_s": 100.0, "section": 1})
+    # multifurcating input files with partially named ancestors (root named in every other one): names must survive the refinement
+    for k in range(6 if q else 60):
+        algo = ["ext_spfs", "superdtl"][k % 2]
+        base = SR.random_poly_input(rng, rng.randint(3, 4), rng.randint(3, 4), 2, algo == "ext_spfs", True, k % 3 == 0)
+        base.pop("oprefix", None), base.pop("sprefix", None), base.pop("brlen", None)
+        d = random_named(rng, RC.documented_names(base))
+        if k % 2 == 0:
+            d["onames"]["0"] = "root"
+            d["snames"]["0"] = "LUCA"
+        items.append({"kind": "poly", "desc": d, "algo": algo, "section": 1})
     alpha = "aA_b"
     for s1 in ["".join(p) for k in range(1, (3 if q else 4)) for p in itertools.product(alpha, repeat=k)]:
         items.append({"kind": "mapping", "s1": s1, "section": 2})
